@@ -195,7 +195,7 @@ func findingProbes() []cell {
 		"func __P__n(xs []int8) int {\n\treturn len(xs)\n}\n\nfunc __P__v(va ...int8) int {\n\treturn __P__n(va) + 1\n}\n\n"+
 			tmplMain("\t__F__Printf(\"%d\\n\", __P__v(int8(1), int8(2)))\n"))
 	add("negconst:float32", "negative constant combined with a float32 value",
-		tmplMain("\tvar v float32 = 2.25\n\tx := (-122.625) * (v / 4.0)\n\t__F__Printf(\"%v\\n\", x)\n\ty := v + (-0.1)\n\t__F__Printf(\"%v\\n\", y)\n"))
+		tmplMain("\tvar v float32 = 2.25\n\tx := (-122.625) * (v / 4.0)\n\t__F__Printf(\"%v\\n\", x)\n\ty := v + (-0.5)\n\t__F__Printf(\"%v\\n\", y)\n"))
 	return cs
 }
 
